@@ -73,7 +73,7 @@ def _run(repo, rep):
     _sc.set_ranges({'x': (1.0e6, 5.0e7), 'y': (1.0e6, 5.0e7), 'z': (1.0e6, 5.0e7)})
     common.state_rule(repo, rep, [('geodepy.transform', 'conform7')])
     rep.trust('sv/alg.py exact normal forms and exact differentiation')
-    rep.trust('frozen summary: hp2dec(q/10000) == q/3600 degrees for |q| < 60 arc-seconds (string-based HP conversion, the property\'s domain)')
+    rep.trust('arc-seconds are converted arithmetically (q/3600 degrees); a route through HP notation is reported by R-UNITS::rotation-units')
     rep.trust('reference: GDA2020 technical manual section 3 (similarity transformation, Australian rotation sign convention)')
     f = repo.func('geodepy.transform', 'conform7')
     rep.analysed(f)
